@@ -8,7 +8,7 @@ from ..progspace import OPS_Q, OPS_T, PARAMS_X, PARAMS_XY, inputs_for, programs,
 from ..spaces import shard_iter
 
 ID = "C01"
-BUDGET = {"quick": 110, "thorough": 1200}
+BUDGET = {"quick": 150, "thorough": 1200}
 
 
 def n_lib_calls(prog) -> int:
@@ -31,10 +31,22 @@ def cases(tier: str):
         for config in ("mc3", "res_rot"):
             yield dict(name="main", params=[["x", "<nodefault>"]], body=body, ret=ret, subs=[], env=[], configs=[config], flavours=[False, True],
                        explore=True, wide=True)
+    # nested-DAG programs shared with C20: repeated calls of one inner DAG (module-level and local), results used whole
+    from . import c20
+    for cc in c20.cases("quick"):
+        if cc.get("fam") in ("R", "C") or (cc.get("fam") == "A" and cc.get("use") == "returned"):
+            pr = cc["prog"]
+            yield dict(name=pr["name"], params=pr["params"], body=pr["body"], ret=pr["ret"], subs=pr["subs"], env=[], configs=["mc1", "mc3"],
+                       flavours=[False, True], explore=False, nested=True, local_subs=cc.get("local_subs", False))
     # 3-statement chains
     for p in programs(3, [PARAMS_X] if q else [PARAMS_X, PARAMS_XY], ["+"] if q else OPS_Q, with_subs=not q, chain3_only=True):
         if len(p["body"]) < 3:
             continue
+        if q:
+            # quick: the first statement of a 3-statement chain comes from the reduced alphabet {k0(), f(x)} (no constants, no flags)
+            st0 = p["body"][0]
+            if st0["k"] != "call" or st0.get("flag") is not None or st0.get("kwargs") or any(a[0] != "p" for a in st0["args"]):
+                continue
         rets = returns(p["env"], [x[0] for x in p["params"]])
         if q:
             yield dict(p, ret=rets[idx % len(rets)], configs=[CONFIGS[idx % 6]], flavours=[bool((idx // 6) % 2)], explore=False, few_inputs=True)
@@ -70,6 +82,11 @@ def run_one(acc, c):
     if c.get("few_inputs"):
         inputs = inputs[:2]
     case = {"prog": prog}
+    if c.get("nested"):
+        case["local_subs"] = c.get("local_subs", False)
+        run_program(acc, case, prog, [(0,), (3,)], c["configs"], c["flavours"], explore_all=False, local_subs=c.get("local_subs", False))
+        acc.mark_nontrivial(("nested", repr(prog["body"])[:200], repr(prog["ret"])))
+        return
     if c.get("wide"):
         run_program(acc, case, prog, inputs[:1], c["configs"], c["flavours"], explore_all=True, tie_budget=0, max_execs=20000)
         return
@@ -92,7 +109,7 @@ def replay(v):
     c = v["case"]
     a = Acc(ID, 0, 1, 600)
     prog = c["prog"]
-    d, ns, src = build(prog, c["config"], c["is_async"])
+    d, ns, src = build(prog, c["config"], c["is_async"], c.get("local_subs", False))
     args = tuple(c["args"])
     if c["is_async"]:
         async def op():
